@@ -1,10 +1,161 @@
 import PV.C07.Model
 import PV.C07.Spec
+import PV.C07.Lemmas4
 import PV.Gen.C07Tables
+/-
+  C07 — property theorems: f-strings decompose into the reference literal parts and replacement
+  fields.
+
+  Reading guide.  `Spec.split lookup strict raw body off` is the reference scanner (CPython 3.11,
+  pre-PEP 701 rules; validated against CPython itself on every run).  With `strict = true` it is
+  restricted to the DOMAIN of the partial theorem: it answers `none` on exactly the shapes listed in
+  `Spec.lean` (each a known finding with a witness below).  `parseFString` is the model of the Rust
+  scanner; a field is `(expression text, absolute offset, conversion, nested spec)`.
+  `Spec.merge` concatenates adjacent literal pieces and drops empty ones — what the reference does
+  on the fly and `parse_strings` does afterwards (`dedup`).  `NoSurr body`: the body is a Rust `str`.
+-/
 namespace PV.C07
+open PV.C06
+
+/-! ### behaviourally extracted table -/
 
 /-- The conversion-letter table of the real parser (every ASCII character after `!`, obtained by
     running the parser) is the reference table: `s`, `r`, `a` and nothing else. -/
 theorem conv_table_eq : Gen.convTable = Spec.convTable := by decide +kernel
+
+/-! ### the scanner agrees with the reference on the domain -/
+
+/-- the full statement (all f-strings the reference accepts) -/
+def fstring_full : Prop :=
+  ∀ (lookup : List Nat → Option Nat), LookupOk lookup → ∀ (kind : Kind), kind.isAnyFString = true →
+  ∀ (body : List Nat), NoSurr body → ∀ (off : Nat) (ps : List Piece),
+    Spec.split lookup false kind.isRaw body off = some ps →
+    ∃ qs, parseFString lookup kind body off = .ok qs ∧ Spec.merge qs = ps
+
+/-- For every f-string body, of any length, that the reference accepts inside the domain: the Rust
+    scanner accepts it and produces — after merging adjacent literal pieces — exactly the reference
+    pieces: same literal text (escapes decoded, doubled braces, raw or not), and for every field the
+    same expression text at the same absolute offset, the same conversion (with the default `!r`
+    of a bare self-documenting field), and the same nested format spec, recursively. -/
+theorem fstring_eq_spec_partial (lookup : List Nat → Option Nat) (hl : LookupOk lookup) (kind : Kind)
+    (hf : kind.isAnyFString = true) (body : List Nat) (hns : NoSurr body) (off : Nat) (ps : List Piece)
+    (h : Spec.split lookup true kind.isRaw body off = some ps) :
+    ∃ qs, parseFString lookup kind body off = .ok qs ∧ Spec.merge qs = ps :=
+  fstring_agree lookup hl kind hf body hns off ps h
+
+-- non-vacuity: f'a{x!r:>{w}}{{b}}{ y = }' — literal text, conversion, nested spec, doubled braces, '='
+example : Spec.split (fun _ => none) true false
+    [97, 123, 120, 33, 114, 58, 62, 123, 119, 125, 125, 123, 123, 98, 125, 125, 123, 32, 121, 32, 61, 32, 125] 2
+    = some [.lit [97], .field [120] 4 .repr (some [.lit [62], .field [119] 10 .none none]),
+            .lit [123, 98, 125, 32, 121, 32, 61, 32], .field [32, 121, 32] 19 .repr none] := by rfl
+example : parseFString (fun _ => none) .fstr
+    [97, 123, 120, 33, 114, 58, 62, 123, 119, 125, 125, 123, 123, 98, 125, 125, 123, 32, 121, 32, 61, 32, 125] 2
+    = .ok [.lit [97], .field [120] 4 .repr (some [.lit [62], .field [119] 10 .none none]),
+           .lit [123, 98, 125], .lit [32, 121, 32, 61], .lit [32], .field [32, 121, 32] 19 .repr none] := by
+  with_unfolding_all rfl
+
+/-! ### … and deviates outside it (witnesses on the model; each reproduced on the real code) -/
+
+/-- `f'''{"""a"b"""}'''`: the reference takes `"""a"b"""` as the expression; the scanner pairs
+    quotes one by one and reports an unterminated string. -/
+theorem fstring_deviates_triple_quote :
+    Spec.split (fun _ => none) false false [123, 34, 34, 34, 97, 34, 98, 34, 34, 34, 125] 4
+      = some [.field [34, 34, 34, 97, 34, 98, 34, 34, 34] 5 .none none] ∧
+    parseFString (fun _ => none) .fstr [123, 34, 34, 34, 97, 34, 98, 34, 34, 34, 125] 4
+      = .error ⟨.fstring .unterminatedString, 15⟩ := ⟨by rfl, by with_unfolding_all rfl⟩
+
+/-- `f'{x=\t}'`: the reference echoes `x=\t`; the scanner only accepts blanks after `=`. -/
+theorem fstring_deviates_selfdoc_whitespace :
+    Spec.split (fun _ => none) false false [123, 120, 61, 9, 125] 2
+      = some [.lit [120, 61, 9], .field [120] 3 .repr none] ∧
+    parseFString (fun _ => none) .fstr [123, 120, 61, 9, 125] 2
+      = .error ⟨.fstring .unclosedLbrace, 6⟩ := ⟨by rfl, by with_unfolding_all rfl⟩
+
+/-- `f'{x:\x3e5}'`: the reference decodes the escape in the format spec (`>5`); the scanner keeps
+    the five characters `\x3e5`. -/
+theorem fstring_deviates_spec_escape :
+    Spec.split (fun _ => none) false false [123, 120, 58, 92, 120, 51, 101, 53, 125] 2
+      = some [.field [120] 3 .none (some [.lit [62, 53]])] ∧
+    parseFString (fun _ => none) .fstr [123, 120, 58, 92, 120, 51, 101, 53, 125] 2
+      = .ok [.field [120] 3 .none (some [.lit [92, 120, 51, 101, 53]])] := ⟨by rfl, by with_unfolding_all rfl⟩
+
+/-- `f'{x:{y=}}'`: inside a format spec the echo pieces of a self-documenting field stay unmerged
+    (and an empty constant is kept). -/
+theorem fstring_deviates_selfdoc_in_spec :
+    Spec.split (fun _ => none) false false [123, 120, 58, 123, 121, 61, 125, 125] 2
+      = some [.field [120] 3 .none (some [.lit [121, 61], .field [121] 6 .repr none])] ∧
+    parseFString (fun _ => none) .fstr [123, 120, 58, 123, 121, 61, 125, 125] 2
+      = .ok [.field [120] 3 .none (some [.lit [121, 61], .lit [], .field [121] 6 .repr none])] := ⟨by rfl, by with_unfolding_all rfl⟩
+
+/-- hence the full statement fails on the unchanged code -/
+theorem fstring_full_fails : ¬ fstring_full := by
+  intro h
+  obtain ⟨qs, e, _⟩ := h (fun _ => none) ⟨fun _ _ => rfl, fun _ _ h => by cases h⟩ .fstr rfl
+    [123, 120, 61, 9, 125] (by intro x hx; revert x; decide) 2 _ fstring_deviates_selfdoc_whitespace.1
+  rw [fstring_deviates_selfdoc_whitespace.2] at e
+  cases e
+
+/-! ### merging of adjacent pieces across implicitly concatenated literals -/
+
+/-- `parse_strings` on a concatenation that contains an f-string: the pieces of all the tokens are
+    joined in order and adjacent constants merged as the reference does — unless a run of constant
+    pieces is present but empty (`noEmptyRun`, known finding `empty-literal-piece`); every constant
+    piece gets the `u` marker of the first token. -/
+theorem merge_spec (lookup : List Nat → Option Nat) (toks : List StrTok) (u : Bool) (out : List Piece)
+    (h : parseStringsF lookup toks = .ok (u, out)) :
+    ∃ t0 ps, toks.head? = some t0 ∧ u = t0.kind.isUnicode ∧ allPieces lookup toks = .ok ps ∧
+      out = dedup none ps ∧ (noEmptyRun none ps = true → out = Spec.merge ps) := by
+  unfold parseStringsF at h
+  split at h
+  · cases h
+  · cases h
+  · match toks, h with
+    | [], h => cases h
+    | t0 :: ts, h =>
+      simp only at h
+      cases hp : allPieces lookup (t0 :: ts) with
+      | error e => simp [hp] at h
+      | ok ps =>
+        simp [hp] at h
+        obtain ⟨rfl, rfl⟩ := h
+        exact ⟨t0, ps, rfl, rfl, rfl, rfl, fun hn => dedup_eq_merge ps none hn⟩
+
+/-- `'' f'{x}'`: the empty plain literal survives as an empty constant piece; the reference drops it. -/
+theorem merge_fails_empty_literal :
+    dedup none [.lit [], .field [120] 6 .none none] = [.lit [], .field [120] 6 .none none] ∧
+    Spec.merge [.lit [], .field [120] 6 .none none] = [.field [120] 6 .none none] := ⟨by rfl, by with_unfolding_all rfl⟩
+
+example : parseStringsF (fun _ => none)
+    [⟨0, [97], .unicode, false, 4⟩, ⟨5, [98, 123, 120, 125], .fstr, false, 12⟩, ⟨13, [99], .str, false, 16⟩,
+     ⟨17, [100], .rawFStr, false, 22⟩]
+    = .ok (true, [.lit [97, 98], .field [120] 9 .none none, .lit [99, 100]]) := by with_unfolding_all rfl
+
+/-! ### the self-documenting `=` form -/
+
+/-- What the scanner emits at the closing brace of a self-documenting field: the expression text
+    followed by `=`, the blanks after the `=`, and the field — with conversion `!r` exactly when
+    neither a conversion nor a format spec was given.  (The reference echo text `Spec.echoOf` is
+    the concatenation of the first two; `fstring_eq_spec_partial` covers the scanning itself.) -/
+theorem selfdoc_spec (st : FvState) (h : st.selfDoc = true) (location : Nat) :
+    fvResult st location =
+      [.lit (st.expr ++ [61]), .lit st.trailing,
+       .field st.expr location (if st.conv = .none ∧ st.spec.isNone then .repr else st.conv) st.spec] := by
+  simp [fvResult, h]
+
+example : parseFString (fun _ => none) .fstr [123, 32, 120, 32, 61, 32, 32, 33, 115, 125] 2
+    = .ok [.lit [32, 120, 32, 61], .lit [32, 32], .field [32, 120, 32] 3 .str none] := by with_unfolding_all rfl
+example : Spec.split (fun _ => none) true false [123, 32, 120, 32, 61, 32, 32, 33, 115, 125] 2
+    = some [.lit [32, 120, 32, 61, 32, 32], .field [32, 120, 32] 3 .str none] := by rfl
+
+/-! ### field offsets -/
+
+/-- `f'''\r\n{x}'''`: the lexer hands `\n{x}` (CRLF folded) to the scanner, which places `x` at
+    byte 6; in the source the text of `x` is at byte 7. -/
+theorem field_offsets_crlf_fails :
+    (lexString .fstr [102, 39, 39, 39, 13, 10, 123, 120, 125, 39, 39, 39] 0).map (fun p => (p.1.body, p.1.bodyLoc))
+      = .ok ([10, 123, 120, 125], 4) ∧
+    parseFString (fun _ => none) .fstr [10, 123, 120, 125] 4 = .ok [.lit [10], .field [120] 6 .none none] ∧
+    ([102, 39, 39, 39, 13, 10, 123, 120, 125, 39, 39, 39] : List Nat).drop 7 = [120, 125, 39, 39, 39] :=
+  ⟨by rfl, by with_unfolding_all rfl, by rfl⟩
 
 end PV.C07
